@@ -228,6 +228,48 @@ fn c19_real_stub() -> Value {
     })
 }
 
+/// Runs the TTL calibration. `Err(exit code)`: it found that entries never
+/// expire (reported as a violation) .
+fn c19_calibrate(seed: u64, replay_dir: &Path) -> Result<Value, i32> {
+    let root = driver::scratch_root().join("calib");
+    let r = c19::calib::calibrate(&root);
+    let _ = std::fs::remove_dir_all(&root);
+    match r {
+        Err(e) => harness_error(&format!("TTL calibration: {e}")),
+        Ok(Err(detail)) => {
+            let _ = std::fs::create_dir_all(replay_dir);
+            let path = replay_dir.join(format!("C19-{seed}-calibration.json"));
+            let _ = std::fs::write(
+                &path,
+                serde_json::to_string_pretty(&json!({
+                    "property": "C19-calibration", "clause": "freshness", "detail": detail,
+                    "replay": "deterministic: re-runs the time-to-live measurement",
+                }))
+                .unwrap(),
+            );
+            println!("violated clause: freshness");
+            println!("detail: {detail}");
+            println!("VIOLATION property=C19 replay={}", path.display());
+            Err(1)
+        }
+        Ok(Ok(ms)) => {
+            for m in &ms {
+                println!(
+                    "measured time-to-live ({}): zones re-read after {:.9}s, names refreshed after {:.9}s",
+                    m.backend,
+                    m.zone_refresh_after_ns as f64 / 1e9,
+                    m.names_refresh_after_ns as f64 / 1e9
+                );
+            }
+            Ok(json!(ms
+                .iter()
+                .map(|m| json!({"backend": m.backend, "zone_refresh_after_ns": m.zone_refresh_after_ns,
+                                "names_refresh_after_ns": m.names_refresh_after_ns, "oracle_ttl_ns": m.ttl_ns}))
+                .collect::<Vec<_>>()))
+        }
+    }
+}
+
 fn run_c19(args: &Args) -> i32 {
     if let Err(e) = zonegen::self_check() {
         harness_error(&format!("generator self-check failed: {e}"));
@@ -253,6 +295,28 @@ fn run_c19(args: &Args) -> i32 {
     ));
     let want_fplog = args.opts.contains_key("fplog");
     println!("C19 tier={tier:?} VERIF_SEED={seed} runs={runs_mixed}+{runs_ff} workers={workers}");
+
+    // Measure the time-to-live the caches really use (the property is stated
+    // relative to it); workers inherit the result through the environment.
+    let calib_json = match c19_calibrate(seed, &replay_dir) {
+        Ok(v) => v,
+        Err(code) => {
+            // Entries never expire: nothing else was run.
+            let empty: BatchResult<c19::case::Case> = BatchResult {
+                stats: Stats::default(),
+                found: None,
+                harness_error: None,
+                wall_s: 0.0,
+                workers,
+            };
+            let extra = json!({"violation": {"clause": "freshness",
+                "detail": "the time-to-live measurement found that cached entries do not expire",
+                "replay": replay_dir.join(format!("C19-{seed}-calibration.json"))}});
+            let ev = evidence("C19", tier, seed, &empty, extra, 1, C19_RULE, C19_ASSUMPTIONS, c19_real_stub());
+            write_evidence(&evidence_path, &ev);
+            return code;
+        }
+    };
 
     // Batch 1: fault-injecting and mixed configurations.
     let p_mixed = Arc::new(c19::C19 { fault_free: None });
@@ -332,6 +396,9 @@ fn run_c19(args: &Args) -> i32 {
                 extra = json!({"violation": {"clause": clause, "detail": detail, "replay": path}});
             }
         }
+    }
+    if let Value::Object(ref mut m) = extra {
+        m.insert("measured_time_to_live".into(), calib_json);
     }
     let ev = evidence(
         "C19", tier, seed, &res, extra, violations, C19_RULE, C19_ASSUMPTIONS, c19_real_stub(),
@@ -770,12 +837,24 @@ fn run_replay(args: &Args) -> i32 {
             if let Err(e) = zonegen::self_check() {
                 harness_error(&format!("generator self-check failed: {e}"));
             }
+            // The oracle judges the replay with the time-to-live measured on
+            // the tree being replayed against.
+            if let Err(code) = c19_calibrate(0, &std::env::temp_dir()) {
+                return code;
+            }
             let p = c19::C19 { fault_free: None };
             match driver::replay(&p, Path::new(path)) {
                 Err(e) => harness_error(&e),
                 Ok((rf, viol, trace)) => report_replay(&rf.property, &rf.clause, path, &viol, &trace, args),
             }
         }
+        "C19-calibration" => match c19_calibrate(0, &std::env::temp_dir()) {
+            Ok(_) => {
+                println!("replay of {path}: cached entries expire on the current tree");
+                0
+            }
+            Err(code) => code,
+        },
         "C20-miri-race" => {
             let ms = v["miri_seeds"].as_u64().unwrap_or(16);
             match miri_invoke_race(ms, v["full"].as_bool().unwrap_or(true)) {
